@@ -334,6 +334,12 @@ let step_preds : (string * (vconfig -> fstep -> bool)) list = [
   ("c06_cap_ok", c06_cap_ok);
   ("c06_emitted_live_ok", c06_emitted_live_ok);
   ("c06_fast_retx_ok", c06_fast_retx_ok);
+  ("c07_immediate_ok", c07_immediate_ok);
+  ("c07_pre_monitor", c07_pre_monitor);
+  ("c07_delayed_ok", c07_delayed_ok);
+  ("c07_fires_ok", c07_fires_ok);
+  ("c18_nagle_ok", c18_nagle_ok);
+  ("c18_pre_monitor", c18_pre_monitor);
   ("c17_synack_ok", c17_synack_ok);
   ("c17_fin_after_data_ok", c17_fin_after_data_ok);
   ("c17_fin_number_step_ok", c17_fin_number_step_ok);
@@ -351,6 +357,7 @@ let trace_preds : (string * (vconfig -> fstep list -> bool)) list = [
   ("c02_prompt", c02_prompt);
   ("c06_stable_plen_ok", c06_stable_plen_ok);
   ("c06_joint_ok", c06_joint_ok);
+  ("c07_idle_silent_partial", c07_idle_silent_partial);
   ("c17_fin_seq_ok", c17_fin_seq_ok);
   ("c17_peer_fin_ok", c17_peer_fin_ok);
   ("c17_reset_trace_ok", c17_reset_trace_ok);
